@@ -151,15 +151,23 @@ class Driver:
         self.real = real_universe(uni)
         self.record = parse_record(skeleton_text(self.real["L"], uni["circ"], seed))
         self.keep = []
+        self.seed = seed
 
     # -- genes --
     def _translation(self, location) -> str:
         return str(self.record.get_aa_translation_from_location(location))
 
+    def _tag(self, idx: int, gene: dict) -> str:
+        """ the gene's name: short, or - for every other annotated gene with domains / a prepeptide - as long as the names
+            of draft assemblies get, which GenBank files have to wrap over two lines """
+        if gene.get("pay") in (4, 5) and (self.seed + idx) % 2 == 0:
+            return f"g{idx}_DRAFT_ASSEMBLY_SCAFFOLD_00012_ORF_000345_joined"
+        return f"g{idx}"
+
     def _add_input_gene(self, idx: int, gene: dict, codon_start: int, rich: bool):
         """ the gene arrives as Biopython features, the way the CDSs of an annotated input file do """
         location = build.loc(gene["loc"])
-        tag = f"g{idx}"
+        tag = self._tag(idx, gene)
         bio_location = location
         qualifiers = {"locus_tag": [tag]}
         if codon_start > 1:
@@ -189,7 +197,7 @@ class Driver:
 
     def _add_api_gene(self, idx: int, gene: dict):
         location = build.loc(gene["loc"])
-        cds = CDSFeature(location, translation=self._translation(location), locus_tag=f"g{idx}",
+        cds = CDSFeature(location, translation=self._translation(location), locus_tag=self._tag(idx, gene),
                          product="hypothetical protein", translation_table=11)
         # annotate first, then add: defining genes are decided when a gene meets a protocluster
         for product in gene["core_for"]:
